@@ -14,6 +14,7 @@ mod c11;
 mod corpus;
 mod driver;
 mod exec;
+mod gen;
 
 use serde_json::{json, Value};
 use std::io::{BufRead, Write};
@@ -43,7 +44,9 @@ fn worker() {
             }
         };
         let pid = case["project"].as_str().unwrap_or("");
-        let reply = match projects.iter().find(|p| p.id == pid) {
+        // generated workload projects travel with the case; corpus projects are looked up by id
+        let inline = case.get("inline").and_then(gen::project_from_json);
+        let reply = match inline.as_ref().or_else(|| projects.iter().find(|p| p.id == pid)) {
             None => json!({"harness_error": format!("unknown project {pid}")}),
             Some(project) => {
                 // run on a thread with the default 8 MiB main-thread stack size, like rustc's proc-macro host
@@ -84,6 +87,13 @@ fn main() {
             }
             0
         }
+        Some("gen") => {
+            let p = gen::generate_project(args.get(2).and_then(|s| s.parse().ok()).unwrap_or(1), args.get(3).and_then(|s| s.parse().ok()).unwrap_or(0));
+            for (k, v) in &p.files {
+                println!("==== {k}\n{}", String::from_utf8_lossy(v));
+            }
+            0
+        }
         Some("c09") => driver::drive("C09", &args[2..]),
         Some("c11") => driver::drive("C11", &args[2..]),
         Some("replay") => driver::replay(&args[2..]),
@@ -93,7 +103,8 @@ fn main() {
             exec::ignore_sigxfsz();
             let case: Value = serde_json::from_str(&args[2]).expect("case json");
             let projects = corpus::load();
-            let project = projects.iter().find(|p| p.id == case["project"].as_str().unwrap_or("")).expect("project");
+            let inline = case.get("inline").and_then(gen::project_from_json);
+            let project = inline.as_ref().or_else(|| projects.iter().find(|p| p.id == case["project"].as_str().unwrap_or(""))).expect("project");
             let scratch = exec::Scratch::new();
             let r = match case["kind"].as_str().unwrap_or("") {
                 "read" => exec::run_read_case(&scratch, project, &case),
